@@ -17,7 +17,7 @@ func init() { register("C11", checkC11) }
 
 func checkC11(w *World, r *Recorder) propInfo {
 	info := propInfo{
-		Explanation: "Per setter of both built-in profiles and of the library's component type, on the path summary (validators inlined): Q1 the outcome per cell of the argument's value space equals the same profile-table row that C01-R2 compares the getter with (so accept(setter)=accept(getter)=table; for P2's nonce through the model of eat.Nonce{}.Add); Q2 a failing path performs no store into the receiver (all-or-nothing), with the single reasoned exception of the lazy container below; Q3 the only locations written are the claim's own field (profile 1 components: the list and the no-measurements flag); Q4 the value stored on success is the address of a copy of the argument (or eat.UEID(arg), or a Nonce holding exactly arg) — never derived from earlier claim state, hence results do not depend on order or repetition of calls (Q5); Q6 the component converter validates every element in a full walk and yields nothing on the first failure, Replace assigns its result (does not append), Add appends it, and both store only on success; Q7 profile 1 keeps list and flag exclusive: nil list ⇒ flag set and container nil, a list ⇒ flag cleared. Lazy container: a store of a fresh, empty container into a nil container field before Replace may fail is accepted because its premises are proved in the same run — both profiles' component getters treat nil and empty alike (C01-R2 cubes) and profile 1's marshal methods nil-out an empty container before encoding. Not decided: equality of the resulting encodings (library behaviour).",
+		Explanation: "Per setter of both built-in profiles and of the library's component type, on the path summary (validators inlined): Q1 the outcome per cell of the argument's value space equals the same profile-table row that C01-R2 compares the getter with (so accept(setter)=accept(getter)=table; for P2's nonce through the model of eat.Nonce{}.Add); Q2 a failing path performs no store into the receiver (all-or-nothing), with the single reasoned exception of the lazy container below; Q3 the only locations written are the claim's own field (profile 1 components: the list and the no-measurements flag); Q4 the value stored on success is the address of a copy of the argument (or eat.UEID(arg), or a Nonce holding exactly arg) — never derived from earlier claim state, hence results do not depend on order or repetition of calls (Q5); Q6 the component converter validates every element in a full walk and yields nothing on the first failure, Replace assigns its result (does not append), Add appends it, and both store only on success; Q7 profile 1 keeps list and flag exclusive: nil list ⇒ flag set and container nil, a list ⇒ flag cleared. Lazy container: a store of a fresh, empty container into a nil container field before Replace may fail is accepted because its premises are proved in the same run — both profiles' component getters treat nil and empty alike (C01-R2 cubes) and profile 1's marshal methods nil-out an empty container before encoding. Not decided: equality of the resulting encodings (library behaviour). Q8: what a setter stored is the object's own memory — no mutable package-level memory is reachable from it (leak-site scan rooted at the setters).",
 		Rule:        "obligations per (setter, rule) and per (setter, path); decided by the interval engine / dominance rules",
 		Trusted:     []string{"go/types+go/ssa", "interval engine, cube comparison", "E9 pattern languages", "model: eat.Nonce{}.Add(v) succeeds iff 8<=len(v)<=64 and then holds exactly v"},
 		Assumptions: []string{"only the library's own component type is passed to SetSoftwareComponents (statement)", "callers do not mutate the byte slice they passed after the call"},
